@@ -80,6 +80,16 @@ SEEDS = {
     "C09d-swap-drops-energy-projection": ("C09", "a copy made by assignment or swap onto an object that held another energy distribution: only the position projections travel", []),
     "C10d-energy-axis-written-from-position-ruler": ("C10", "PhaseSpaceShiftX != PhaseSpaceShiftY: /Info/AxisValues_E is written from the position ruler", []),
     "C08d-equal-currents-share-bunch0-wake": ("C08", "an impedance, two or more bunches with exactly equal set currents, and bunches whose wake potentials differ (different data or a long-range wake): every bunch is kicked with bunch 0's wake, the recorded wake stays right", ["C05"]),
+    "C16d-sum-grows-to-longer-operand": ("C16", "an impedance file with more lines than the requested sample count (or a += b with b longer than a): the sum grows to the longer operand, size() exceeds nFreqs() and the extra samples are non-zero", ["C17"]),
+    "C18d-stale-padded-uptodate-flag": ("C18", "padBunchProfiles() for profile A, then the profile changes, then wakePotential() on the same object without another call in between: the padded copy of A is transformed", []),
+    "C20d-stepsperrevolution-getter-truncates": ("C20", "a non-integer StepsPerRevolution (e.g. 0.5, 2.5): the getter returns an unsigned integer, 0.5 becomes 'not set' and the run falls back to StepsPerTs", ["C13", "C03"]),
+    "C13d-savephasespace-64bit-not-saved": ("C13", "SavePhaseSpace given with a non-zero value: the member became a 64 bit type, save() has no branch for it and writes no line, the rerun uses 0", ["C20"]),
+    "C19d-modulation-step-from-raw-N": ("C19", "RF phase modulation together with --StepsPerRevolution: the modulation advances as if there were -N steps per synchrotron period, the recorded and applied frequency is f*steps/N", []),
+    "C17d-file-only-impedance-keeps-file-length": ("C17", "an impedance file as the only contribution (-G 0) with fewer rows than last bucket offset + grid size: the table is returned with its own length, padBunchProfiles writes past the padded buffer", ["C16"]),
+    "C12d-verbose-integrates-before-initial-normalisation": ("C12", "--verbose in one run and not in the other, a start from a file and RenormalizeCharge >= 0: the verbose block integrates the loaded grid before the initial normalisation, the quiet run normalises with the placeholder's integral", ["C11"]),
+    "C14d-final-report-from-step-counter": ("C14", "a signal arriving during or after the last step: the closing report tests the step counter instead of the flag and says Finished", []),
+    "C11d-multibunch-start-file-accepted": ("C11", "a start file written by a run with more than one bunch: no longer refused, the run silently starts from bunch 0 of the record", ["C17"]),
+    "C15d-odd-grid-half-cell-grid-side": ("C15", "an odd grid size: the grid is moved by offset + 0.5 cells per kick, the particle by offset (third variant of the same one-line slip as C03c / C05d)", ["C03"]),
     "C10-": ("C10", "", []),
     "C17-": ("C17", "", []),
 }
